@@ -673,9 +673,13 @@ fn extra(s: &mut Session) {
     history_independence(s);
     // compile-time probe: Engine: Send + Sync + Clone, SpeechGenerator: Send
     let dir = verif_dir().join("harness/probes/send_sync");
-    let out = std::process::Command::new("cargo")
-        .args(["check", "--offline", "--quiet", "--target-dir"])
-        .arg(verif_dir().join("target/probe"))
+    let repo = crate::util::repo_dir();
+    let mut cmd = std::process::Command::new("cargo");
+    cmd.args(["check", "--offline", "--quiet", "--target-dir"]).arg(verif_dir().join("target/probe"));
+    if repo != std::path::Path::new("/repo") {
+        cmd.arg("--config").arg(format!("paths=[\"{}\"]", repo.display()));
+    }
+    let out = cmd
         .current_dir(&dir)
         .env("CARGO_NET_OFFLINE", "true")
         .output();
